@@ -7,7 +7,7 @@ from ..px import OK, PX, RAISE, Outcomes, int_type_of
 from ..pxv import Obj, Sym
 from ..su import norm
 from ..te import ClassRef, Member, TypeRef
-from .util import self_obj
+from .util import same_class, self_obj
 
 APP = "bellows.zigbee.application"
 NAMED = "bellows.types.named"
@@ -48,7 +48,9 @@ def explore_callback(ctx, v, frame_name, fields, inline=(), models=()):
     repo = ctx.repo
     f = repo.func(f"{APP}:ControllerApplication.ezsp_callback_handler")
     cls = app_cls(ctx)
-    px = PX(repo, models=list(models), inline=lambda g, aw: g.name in inline or g.name == "from_ember_status")
+    stop = {"_handle_frame", "_handle_frame_sent", "_handle_tc_join_handler", "handle_route_error", "handle_route_record", "_handle_id_conflict",
+            "connection_lost"} - set(inline)
+    px = PX(repo, models=list(models), inline=same_class(stop=stop))
 
     def setup():
         ez = Obj(TypeRef("EZSP"), {"ezsp_version": v}, tag="self._ezsp")
@@ -195,7 +197,7 @@ def r13_3(ctx):
     cls = app_cls(ctx)
     du = repo.cls(NAMED, "EmberDeviceUpdate")
     jd = repo.cls(NAMED, "EmberJoinDecision")
-    px = PX(repo, inline=lambda g, aw: False, models=[("IEEE_PREFIX_MFG_ID.get", Outcomes(OK(None), OK(0x115F))),
+    px = PX(repo, inline=same_class(stop=("cleanup_tc_link_key", "_reset_mfg_id")), models=[("IEEE_PREFIX_MFG_ID.get", Outcomes(OK(None), OK(0x115F))),
                                                       ("self._mfg_id_task.done", Outcomes(OK(True), OK(False)))])
     for s in list(du.canonical_members()) + [Member(du, "undefined_0x7f", 0x7F)]:
         for d in list(jd.canonical_members()) + [Member(jd, "undefined_0x7f", 0x7F)]:
